@@ -157,7 +157,8 @@ Definition eval_map (st : gmap) := eval_map_with (fun k => assoc k st).
 (* ---------- loading a role tree (ProcessTemplates) ---------- *)
 (* a role as written in the workflow; [name] = None: literal name "r"; Some k: "n{{ k }}".
    A role with children is an aggregator, a childless one a task or call role (the three
-   treat their variables identically).  RIter: iterator role over a template role.
+   treat their variables identically).  RIter: iterator role over a template role, with its
+   range spec (iteratorrange.go).
    RIncl: include role (include: <workflow>) with its own name / defaults / vars, and the
    defaults, vars and children of the root of the sub-workflow it names (includerole.go).
    After loading, the include role shows the sub-workflow root's maps as its own
@@ -166,9 +167,59 @@ Definition eval_map (st : gmap) := eval_map_with (fun k => assoc k st).
    parented to the include role by loadSubworkflow, and the parent is restored by plain
    assignment, not by setParent).  An ltree node therefore carries the levels hidden between
    its visible level and its parent: [hid] is [] for every role but a loaded include role. *)
+(* the `for:` block of an iterator: range: '[<item>, ...]' (a JSON list of strings, every item a
+   literal or {{ key }}) or begin: / end: (each a literal or {{ key }}, read with strconv.Atoi;
+   the values are begin..end inclusive, printed in decimal) *)
+Inductive irange := IList (items : list tval) | IFor (b e : tval).
+
+Definition atoi (s : str) : option N :=
+  match s with
+  | [] => None
+  | _ => fold_left (fun acc c => match acc with
+                                 | Some a => if (48 <=? c) && (c <=? 57) then Some (a * 10 + (c - 48))
+                                             else None
+                                 | None => None end) s (Some 0)
+  end.
+Fixpoint dec_fuel (fuel : nat) (n : N) (acc : str) : str :=
+  match fuel with
+  | O => acc
+  | S f => let acc' := (48 + n mod 10) :: acc in
+           if n / 10 =? 0 then acc' else dec_fuel f (n / 10) acc'
+  end.
+Definition dec_of_N (n : N) : str := dec_fuel 40 n [].
+Fixpoint count_from (b : N) (n : nat) : list N :=
+  match n with O => [] | S k => b :: count_from (b + 1) k end.
+
+Fixpoint eval_items (look : str -> option str) (l : list tval) : option (list str) :=
+  match l with
+  | [] => Some []
+  | t :: r => match eval_with look t, eval_items look r with
+              | Some x, Some r' => Some (x :: r')
+              | _, _ => None
+              end
+  end.
+
+(* GetRange: the expressions are evaluated against the stack handed in; an unknown name or a
+   bound that is not a number is an error *)
+Definition eval_range_with (look : str -> option str) (r : irange) : option (list str) :=
+  match r with
+  | IList items => eval_items look items
+  | IFor b e =>
+    match eval_with look b, eval_with look e with
+    | Some bs, Some es =>
+      match atoi bs, atoi es with
+      | Some x, Some y =>
+        Some (if x <=? y then map dec_of_N (count_from x (N.to_nat (y - x + 1))) else [])
+      | _, _ => None
+      end
+    | _, _ => None
+    end
+  end.
+Definition eval_range (st : gmap) := eval_range_with (fun k => assoc k st).
+
 Inductive rtree :=
 | RRole (name : option str) (defaults vars : rmap) (children : list rtree)
-| RIter (var : str) (vals : list str) (tpl : rtree)
+| RIter (var : str) (rng : irange) (tpl : rtree)
 | RIncl (name : option str) (defaults vars : rmap) (sdefaults svars : rmap)
         (children : list rtree).
 
@@ -253,10 +304,16 @@ Fixpoint load (anc : path) (locals : gmap) (t : rtree) : option (list ltree) :=
         end
       end
     end
-  | RIter var vals tpl =>
-    (* expandTemplate: one copy of the template per value, the value as a local, parented to
-       the iterator's parent *)
-    opt_concat_map (fun x => load anc [(var, x)] tpl) vals
+  | RIter var rng tpl =>
+    (* expandTemplate: the range is evaluated against FlattenStack(defaults, vars, user vars) of
+       the iterator's parent - its consolidated stack - every time this iterator is loaded (an
+       iterator inside the template of another one is loaded once per role the outer one
+       generates, each time under that role; the copies share nothing).  Then one copy of the
+       template per value, the value as a local, parented to the iterator's parent *)
+    match eval_range (consolidated anc) rng with
+    | None => None
+    | Some vals => opt_concat_map (fun x => load anc [(var, x)] tpl) vals
+    end
   end.
 
 (* SetRuntimeVar / DeleteRuntimeVar on the role at a child-index address ([0] = root) *)
@@ -352,10 +409,8 @@ Inductive c14_case :=
 | CFlatStack (hs : list hier) (o : gmap)
 (* template.Sequence.Execute: value of {{ key }} at each of the stages, None = unknown name *)
 | CStage (locals : gmap) (d v u : hier) (keys : list str) (o : list (list (option str)))
-(* real role tree; [locs] = which role addresses of the expanded tree were generated by an
-   iterator, with the iterator variable and its value (a description of the input tree) *)
-| CTree (env : level) (t : rtree) (ops : list (list N * mop))
-        (locs : list (list N * (str * str))) (o : option (list view))
+(* real role tree *)
+| CTree (env : level) (t : rtree) (ops : list (list N * mop)) (o : option (list view))
 (* task level on a real role whose path is p *)
 | CTask (p : path) (special : gmap) (cd cv : rmap) (keys : list str)
         (o_cmd o_prop : list (option str))
@@ -392,7 +447,7 @@ Definition corr14 (c : c14_case) : bool :=
   | CStage locals d v u keys o =>
     list_eqb (list_eqb ostr_eqb)
              (map (fun s => map (fun k => assoc k (staged_of s locals d v u)) keys) stage_list) o
-  | CTree env t ops _ o => option_eqb (list_eqb view_eqb) (run_tree env t ops) o
+  | CTree env t ops o => option_eqb (list_eqb view_eqb) (run_tree env t ops) o
   | CTask p special cd cv keys o_cmd o_prop =>
     let wf := consolidated p in
     list_eqb ostr_eqb
@@ -419,6 +474,8 @@ Definition corr14 (c : c14_case) : bool :=
      9  the variable of an iterator is not a var of the role generated for one of its values
         (for a generated include role: of its own maps, below the sub-workflow root's)
     10  a call does not see special > the consolidated stack of its role
+    12  the roles an iterator generated are not one per value of its range as evaluated with the
+        nearest definitions visible at the iterator's parent (as of loading time), in order
     11  a role in the subtree of an include role (the include role itself included) does not see
         the include role's own defaults / vars as the nearest ancestor's above the sub-workflow
         root: what it sees is exactly the ranking WITHOUT those maps *)
@@ -476,6 +533,60 @@ Definition mon_view (env : level) (vs : list view) (w : view) : N :=
     let p0 := observed_path_gen false env vs (w_addr w) in
     if negb (Nat.eqb (length p) (length p0)) && (view_code keys p0 w =? 0) then 11 else c.
 
+(* iterators: the input tree is walked along the observed one.  At an observed role [addr]
+   whose description has the children [ch], every iterator among them must have generated, in
+   order, one role per value of its range - the range evaluated on what the implementation
+   showed for that role and its ancestors as of loading time (the observed own maps: vars and
+   defaults of the path, the environment's user vars; runtime variables set afterwards do not
+   count), i.e. the nearest definitions visible at the iterator's parent - each carrying the
+   value as a var (code 9; a generated include role in its own maps below the sub-workflow
+   root's), and the role must have no other children (code 12). *)
+Definition load_time_look (env : level) (vs : list view) (addr : list N) (k : str) : option str :=
+  let p := observed_path env vs addr in
+  first_hit k ([l_user env] ++ chain l_vars p ++ chain l_defaults p).
+
+Definition child_count (vs : list view) (addr : list N) : N :=
+  Nlen (filter (fun w => list_eqb N.eqb (removelast (w_addr w)) addr
+                         && negb (Nat.eqb (length (w_addr w)) 0)) vs).
+
+Definition local_code (vs : list view) (a : list N) (var x : str) : N :=
+  match find_view vs a with
+  | Some w => if ostr_eqb (assoc var (l_vars (hd (w_own w) (w_hid w)))) (Some x) then 0 else 9
+  | None => 12
+  end.
+
+Fixpoint mon_iters (env : level) (vs : list view) (t : rtree) (addr : list N) {struct t} : N :=
+  let walk :=
+    fix go (l : list rtree) (idx : N) {struct l} : N * N :=
+      match l with
+      | [] => (0, idx)
+      | c :: r =>
+        match c with
+        | RIter var rng tpl =>
+          match eval_range_with (load_time_look env vs addr) rng with
+          | None => (12, idx)
+          | Some vals =>
+            let here := first_code
+                          (flat_mapi (fun j x => [local_code vs (addr ++ [j]) var x;
+                                                  mon_iters env vs tpl (addr ++ [j])]) idx vals) in
+            let '(cr, n) := go r (idx + Nlen vals) in
+            (first_code [here; cr], n)
+          end
+        | _ =>
+          let here := mon_iters env vs c (addr ++ [idx]) in
+          let '(cr, n) := go r (idx + 1) in
+          (first_code [here; cr], n)
+        end
+      end in
+  let finish := fun (ch : list rtree) =>
+    let '(c, n) := walk ch 0 in
+    if c =? 0 then (if n =? child_count vs addr then 0 else 12) else c in
+  match t with
+  | RRole _ _ _ ch => finish ch
+  | RIncl _ _ _ _ _ ch => finish ch
+  | RIter _ _ _ => 0
+  end.
+
 Definition nth_row (o : list (list (option str))) (s : N) : list (option str) :=
   nth (N.to_nat s) o [].
 
@@ -499,15 +610,9 @@ Definition mon14 (c : c14_case) : N :=
                ++ (if 2 <=? s then [hd [] d] else []) ++ tl d in
     first_code (map (fun s => check_vals 5 keys (fun k => first_hit k (srcs s)) (nth_row o s))
                     stage_list)
-  | CTree env t ops locs (Some vs) =>
-    first_code (map (mon_view env vs) vs ++
-                map (fun l => match find_view vs (fst l) with
-                              | Some w => if ostr_eqb (assoc (fst (snd l))
-                                                             (l_vars (hd (w_own w) (w_hid w))))
-                                                      (Some (snd (snd l))) then 0 else 9
-                              | None => 9
-                              end) locs)
-  | CTree _ _ _ _ None => 0
+  | CTree env t ops (Some vs) =>
+    first_code (map (mon_view env vs) vs ++ [mon_iters env vs t [0]])
+  | CTree _ _ _ None => 0
   | CTask p special cd cv keys o_cmd o_prop =>
     let wfs := special :: sources p in
     let look0 := fun k => first_hit k wfs in
@@ -539,7 +644,8 @@ Definition mon14 (c : c14_case) : N :=
    kind * 100 + 1 (some key is defined by two or more ranked sources)
               + 2 (some key's winning value is empty while a lower-ranking source is non-empty)
               + 4 (some queried key is defined nowhere)
-              + 8 (CTree/CTask: depth >= 3; CTree: load failed = 16)
+              + 8 (CTree/CTask: depth >= 3; CTree: load failed = 499)
+              + 16 (CTree: an iterator inside the template of another one whose range has a reference)
               + 32 (CTree: an include role whose own maps define some key)
               + 48 instead (CTree: an include role generated by an iterator) *)
 Definition defining (k : str) (srcs : list gmap) : nat := length (filter (has k) srcs).
@@ -553,23 +659,40 @@ Definition tag_bits (keys : list str) (srcs : list gmap) : N :=
   (if existsb (fun k => nonempty_below k srcs) keys then 2 else 0) +
   (if existsb (fun k => Nat.eqb (defining k srcs) 0) keys then 4 else 0).
 
+Definition range_has_ref (r : irange) : bool :=
+  match r with
+  | IList items => existsb (fun t => match t with VRef _ => true | VLit _ => false end) items
+  | IFor b e => match b, e with VLit _, VLit _ => false | _, _ => true end
+  end.
+Fixpoint nested_ref_iter (inside : bool) (t : rtree) : bool :=
+  match t with
+  | RRole _ _ _ ch => existsb (nested_ref_iter inside) ch
+  | RIncl _ _ _ _ _ ch => existsb (nested_ref_iter false) ch
+  | RIter _ rng tpl => (inside && range_has_ref rng) || nested_ref_iter true tpl
+  end.
+Fixpoint iterated_incl (t : rtree) : bool :=
+  match t with
+  | RRole _ _ _ ch => existsb iterated_incl ch
+  | RIncl _ _ _ _ _ ch => existsb iterated_incl ch
+  | RIter _ _ tpl => match tpl with RIncl _ _ _ _ _ _ => true | _ => false end || iterated_incl tpl
+  end.
+
 Definition tag14 (c : c14_case) : N :=
   match c with
   | CGera h0 ops other keys _ _ _ _ _ =>
     100 + tag_bits keys (apply_hops ops h0)
   | CFlatStack hs _ => 200 + tag_bits (all_keys (concat hs)) (concat (rev hs))
   | CStage locals d v u keys _ => 300 + tag_bits keys ([locals] ++ u ++ v ++ d)
-  | CTree env t ops locs (Some vs) =>
+  | CTree env t ops (Some vs) =>
     400 + (if existsb (fun w => Nat.leb 3 (length (w_addr w))) vs then 8 else 0)
-        + (if existsb (fun l => match find_view vs (fst l) with
-                                | Some w => negb (Nat.eqb (length (w_hid w)) 0)
-                                | None => false end) locs then 48
+        + (if nested_ref_iter false t then 16 else 0)
+        + (if iterated_incl t then 48
            else if existsb (fun w => negb (Nat.eqb (length (all_keys (sources (w_hid w)))) 0)) vs
                 then 32 else 0)
         + fold_right N.lor 0
             (map (fun w => let p := observed_path env vs (w_addr w) in
                            tag_bits (all_keys (sources p)) (sources p)) vs)
-  | CTree _ _ _ _ None => 416
+  | CTree _ _ _ None => 499
   | CTask p special cd cv keys _ _ =>
     500 + (if Nat.leb 3 (length p) then 8 else 0)
         + tag_bits keys (special :: sources p ++ [raw_map cv; raw_map cd])
